@@ -809,6 +809,16 @@ def iter_try_for_each(fallible):
     return f
 
 
+def cf_is(variant):
+    """ControlFlow::is_continue / is_break on a value whose variant the path knows"""
+    def f(eng, st, fr, args, fn, site):
+        x = deref(eng, st, ptr_term(args[0]))
+        if x[0] == 'agg' and x[2] in ('Continue', 'Break'):
+            return C(int(x[2] == variant), 'bool')
+        return None
+    return f
+
+
 def ref_bool_not(eng, st, fr, args, fn, site):
     """<&bool as Not>::not(r): the negation of what r points to (a closure pattern that binds a `&bool`)"""
     x = deref(eng, st, ptr_term(args[0]))
@@ -1320,6 +1330,8 @@ SUMMARIES = {
     'std::option::Option::<T>::zip': opt_zip,
     'std::array::<impl [T; N]>::map': array_map,
     '<&bool as std::ops::Not>::not': ref_bool_not,
+    'std::ops::ControlFlow::<B, C>::is_continue': cf_is('Continue'),
+    'std::ops::ControlFlow::<B, C>::is_break': cf_is('Break'),
     'std::iter::Iterator::filter': iter_adaptor('iter_filter'),
     'std::iter::Iterator::map': iter_adaptor('iter_map'),
     'std::iter::Iterator::max': iter_consume('max'),
